@@ -2,7 +2,8 @@
 From stdpp Require Import gmap list sorting.
 From Coq Require Import ZArith String.
 From OL Require Import theories.Store theories.Abci theories.Restart theories.Nondet
-  proofs.StoreProofs proofs.RestartProofs proofs.NondetProofs gen.Facts_Nondet.
+  proofs.StoreProofs proofs.RestartProofs proofs.NondetProofs gen.Facts_Nondet
+  theories.Globals proofs.GlobalsProofs gen.Facts_Globals.
 Local Open Scope Z_scope.
 
 (* (1) Go map iteration is an arbitrary permutation chosen per loop.  For each loop idiom that
@@ -103,3 +104,17 @@ Example C01_facts_nonvacuous :
   (10 <=? Z.of_nat (List.length ambient_sites)) = true /\
   bad_sites [] false map_range_sites <> [].
 Proof. vm_compute. repeat split; discriminate. Qed.
+
+(* (4) node identity and node-local data: two nodes fed the same consensus inputs persist the same
+   tracker state whatever their witness flag, their own votes and the content of their job stores
+   (model: theories/Globals.v; tie: the facts below, regenerated from the source on every run) *)
+Theorem C01_tracker_state_independent_of_the_node : forall h1 h2 t,
+  same_inputs h1 h2 -> writes_ok h1 = true -> writes_ok h2 = true ->
+  run false t h1 = run false t h2.
+Proof. exact run_local_independent. Qed.
+Print Assumptions C01_tracker_state_independent_of_the_node.
+
+Theorem C01_fact_node_local_inputs :
+  unknown_globals written_globals = [] /\ unaudited_reads local_reads = [] /\ state_then_lookup_error = [].
+Proof. vm_compute. repeat split; reflexivity. Qed.
+Print Assumptions C01_fact_node_local_inputs.
